@@ -462,6 +462,10 @@ func (dr *dirRepo) blobDelete(d digest.Digest, locked bool) error {
 	}
 	dr.log.Debug("blob deleted", "repo", dr.name, "digest", d.String())
 	err = os.Remove(filename)
+	if err != nil && os.IsNotExist(err) {
+		// the blob was deleted by another request after the stat
+		return fmt.Errorf("failed to remove %s: %w", d.String(), types.ErrNotFound)
+	}
 	return err
 }
 
